@@ -37,6 +37,7 @@ class G15:
         self.rng = rng
         self.n = 0
         self.tags = 0
+        self.known = []      # every function name generated so far, in or out of scope
 
     def fresh(self, p="v"):
         self.n += 1
@@ -56,9 +57,10 @@ class G15:
         op = rng.choice(("+", "*", "-", "+"))
         return "((%s %s %s) %% 9973)" % (a, op, b)
 
-    def fn(self, depth, visible, kind="decl"):
+    def fn(self, depth, visible, kind="decl", selfref=False):
         rng = self.rng
         name = self.fresh("f")
+        self.known.append(name)
         params = [self.fresh("p") for _ in range(rng.randrange(0, 4))]
         locs = [self.fresh("l") for _ in range(rng.randrange(1, 5))]
         lines = []
@@ -74,9 +76,13 @@ class G15:
             lines.append("log(%d, (function(){ return [%s].join(','); })());" % (self.tag(), ", ".join("String(%s)" % h for h in late)))
         for _ in range(rng.randrange(2, 6)):
             lines.append(self.stmt(depth, vis, params))
+        if kind == "arrow" and depth < 3 and rng.random() < 0.6:
+            # a declaration nested in an arrow body, looked at before it runs, that refers to itself
+            src, nm, np = self.fn(depth + 1, vis, "decl", selfref=True)
+            lines.append("log(%d, typeof %s);\n%s\nlog(%d, %s(%s));" % (self.tag(), nm, src, self.tag(), nm, self.args(np, vis)))
         for h in late:
             lines.append("var %s = %s;" % (h, self.expr(vis)))
-        if kind == "decl" and rng.random() < 0.25:
+        if kind == "decl" and (selfref or rng.random() < 0.25):
             # the function declares a var with its own name and looks at it before the assignment,
             # directly and through an inner closure
             lines.insert(rng.randrange(len(locs), len(lines) + 1),
@@ -88,6 +94,11 @@ class G15:
             return "function %s(%s) {\n%s\n}" % (name, ", ".join(params), body), name, len(params)
         if kind == "expr":
             return "var %s = function %s_n(%s) {\n%s\n};" % (name, name, ", ".join(params), body), name, len(params)
+        if kind == "arrow":
+            # block-bodied arrow function: its nested declarations, closures and early reads go
+            # through the same machinery as in ordinary functions (no `arguments` of its own)
+            body = body.replace("arguments.length ? arguments[0] : 0", "0").replace("arguments.length", "0")
+            return "var %s = (%s) => {\n%s\n};" % (name, ", ".join(params), body), name, len(params)
         raise AssertionError(kind)
 
     def args(self, n, vis):
@@ -105,8 +116,10 @@ class G15:
             v = rng.choice(vis)
             return "%s = %s; log(%d, %s);" % (v, self.expr(vis), t, v)
         if r < 0.50 and depth < 3:
-            src, name, np = self.fn(depth + 1, vis, rng.choice(("decl", "expr")))
-            return "%s\nlog(%d, %s(%s));" % (src, t, name, self.args(np, vis))
+            look = rng.random() < 0.4
+            src, name, np = self.fn(depth + 1, vis, rng.choice(("decl", "expr", "arrow", "decl")), selfref=look)
+            early = "log(%d, typeof %s);\n" % (self.tag(), name) if look else ""
+            return "%s%s\nlog(%d, %s(%s));" % (early, src, t, name, self.args(np, vis))
         if r < 0.60:
             i = self.fresh("i")
             fs = self.fresh("fs")
@@ -158,6 +171,11 @@ class G15:
             if rng.random() < 0.5:
                 return "log(%d, typeof %s);" % (t, slot)
             return "log(%d, typeof %s); %s = %s; log(%d, %s);" % (t, slot, slot, self.expr(vis), t, slot)
+        if self.known and rng.random() < 0.3:
+            # a closure looks at some function name (declared later here, in an enclosing function,
+            # or not in scope at all: typeof is safe either way)
+            nm = rng.choice(self.known)
+            return "log(%d, (function(){ return typeof %s; })() + '|' + typeof %s);" % (t, nm, nm)
         if vis and rng.random() < 0.5:
             # the catch parameter reuses the name of an enclosing local/parameter/global, and a
             # closure made inside the catch block captures it together with other variables
@@ -175,7 +193,7 @@ class G15:
         lines = ["var %s = %d;" % (g, rng.randrange(1, 100)) for g in gl]
         calls = []
         for _ in range(rng.randrange(1, 4)):
-            src, name, np = self.fn(0, gl, rng.choice(("decl", "expr")))
+            src, name, np = self.fn(0, gl, rng.choice(("decl", "expr", "arrow")))
             lines.append(src)
             calls.append("log(%d, %s(%s));" % (self.tag(), name, self.args(np, gl)))
         lines += calls
